@@ -2,7 +2,7 @@ SPECIFICATION SimSpec
 CONSTANTS
   Cap = 16
   Readers = {1, 2, 3}
-  MaxAdds = 14
+  MaxAdds = 20
   Fixed = TRUE
-  Depth = 400
+  Depth = 600
 CONSTRAINT Export
